@@ -82,7 +82,13 @@ def run_cfg(ctx, p, cfg):
             amount = None
             if okv:
                 x, y = deep_strip(val[2]), deep_strip(val[3])
-                is_len = lambda e: e[0] == "field" and e[2] == lenf
+                def is_len(e):
+                    # `self.len += n` reads the field it writes: the recovered old value is the field itself,
+                    # possibly joined with the (cyclic) value just stored
+                    if e[0] == "phi":
+                        alts = [deep_strip(x) for x in e[1]]
+                        return any(is_len(x) for x in alts) and all(is_len(x) or any(y[0] == "cycle" for y in walk(x)) for x in alts)
+                    return e[0] == "field" and e[2] == lenf
                 if is_len(x):
                     amount = val[3]
                 elif is_len(y):
@@ -168,8 +174,8 @@ def rule_seeding(ctx, p, cfg, rid="Z3"):
         op_len = rv["fields"][names.index(lenf)]
         flag = ("field", ("param", 1), ro["append_field"])
         opn = g.call1(rolling.OPEN)
-        tr = [c for c in calls_in(opn.arg(0)) if c[1] == "std::fs::OpenOptions::truncate"]
-        trunc_expr = _ds_bool(tr[0][2][1]) if tr else ("const", "bool", False)
+        tr = common.open_options(g, opn).get("truncate")
+        trunc_expr = _ds_bool(tr[0]) if tr else ("const", "bool", False)
         atoms = q.bool_atoms(trunc_expr)
         r.require(all(a == flag or a[0] == "param" for a in atoms), "truncate-decided-by-flag-and-open-context", fn=g,
                   detail="truncate argument %s (atoms: the appender's append flag / the opener's own parameters)" % show(trunc_expr, 4))
@@ -181,15 +187,20 @@ def rule_seeding(ctx, p, cfg, rid="Z3"):
                 labs = {si.label(v) for v, _ in al}
                 if labs <= {True, False}:
                     cons.append((_ds_bool(si.discr), labs))
+            def unnot(x):
+                neg = False
+                while x[0] == "un" and x[1] == "Not":
+                    x, neg = x[2], not neg
+                return x, neg
+            tcore, tneg = unnot(trunc_expr)
             for d, labs in cons:
-                if d == trunc_expr:
-                    return set(labs)
-                if d[0] == "un" and d[1] == "Not" and d[2] == trunc_expr:
-                    return {not x for x in labs}
+                dcore, dneg = unnot(d)
+                if dcore == tcore:
+                    return set(labs) if dneg == tneg else {not x for x in labs}
             res = set()
             for vals in itertools.product([False, True], repeat=len(atoms)):
                 env = dict(zip(atoms, vals))
-                if all((env[d] in labs) for d, labs in cons if d in env):
+                if all(q.eval_bool(d, env) & labs for d, labs in cons if set(q.bool_atoms(d)) <= set(atoms)):
                     res |= q.eval_bool(trunc_expr, env)
             return res
         # definitions of the seed
